@@ -59,7 +59,19 @@ fn search_by<const L: usize>() {
         }
     }
 
-    let got = tree.search_by(s, |&v, p| is_t(v, *p));
+    // Termination: the predicate is evaluated once before the loop and once per
+    // link step; a terminating search makes at most L + 2 evaluations (each
+    // step marks a new vertex or ends). Counting them turns non-termination
+    // into an ordinary, replayable assertion failure instead of an unwinding
+    // failure.
+    let calls = core::cell::Cell::new(0_usize);
+    let got = tree.search_by(s, |&v, p| {
+        calls.set(calls.get() + 1);
+
+        assert!(calls.get() <= L + 2, "search_by terminates within L + 2 predicate evaluations");
+
+        is_t(v, *p)
+    });
 
     match &got {
         Some(path) => {
@@ -96,8 +108,16 @@ fn search_eq<const L: usize>() {
     let s = nd::below(L);
     let t = nd::usize();
 
+    let calls = core::cell::Cell::new(0_usize);
+    let b = tree.search_by(s, |&v, _| {
+        calls.set(calls.get() + 1);
+
+        assert!(calls.get() <= L + 2, "search_by terminates within L + 2 predicate evaluations");
+
+        v == t
+    });
+    // same code path, same inputs: terminates whenever the call above did
     let a = tree.search(s, t);
-    let b = tree.search_by(s, |&v, _| v == t);
 
     match (&a, &b) {
         (None, None) => {}
@@ -121,21 +141,21 @@ fn search_eq<const L: usize>() {
 
 // @verif prop=C19 tier=quick fl=f2 role=search-by t=600 mem=10
 #[cfg_attr(kani, kani::proof)]
-#[cfg_attr(kani, kani::unwind(7))]
+#[cfg_attr(kani, kani::unwind(8))]
 pub fn c19_search_by_l4() {
     search_by::<4>();
 }
 
 // @verif prop=C19 tier=quick fl=f2 role=search-eq t=600 mem=10
 #[cfg_attr(kani, kani::proof)]
-#[cfg_attr(kani, kani::unwind(7))]
+#[cfg_attr(kani, kani::unwind(8))]
 pub fn c19_search_eq_l4() {
     search_eq::<4>();
 }
 
 // @verif prop=C19 tier=thorough fl=f2 role=search-by t=3600 mem=24
 #[cfg_attr(kani, kani::proof)]
-#[cfg_attr(kani, kani::unwind(9))]
+#[cfg_attr(kani, kani::unwind(10))]
 pub fn c19_search_by_l6() {
     search_by::<6>();
 }
